@@ -75,6 +75,11 @@ def gen_writes(rng, tier):
         pr += ["pub %d r%d x%d" % (a, n, n), "rm %d r%d" % (b, n)]
     pr += ["settle 4000"] + ["getall r%d" % n for n in range(len(pairs))]
     cases.append(Case("writes-removed-elsewhere", pr, True, "boundary"))
+    # directed (both tiers): a follower is frozen (SIGSTOP) while a burst of writes is committed by the other two, then
+    # continued: it receives the whole burst as one replicated batch and must end up serving every one of them
+    bu = ["up 3", "pub 1 b0 first", "settle 1500", "stop 3"] + ["pub %d b%d v%d" % (1 + j % 2, j, j) for j in range(24)] + \
+         ["rm 1 b5", "cont 3", "settle 6000"] + ["getall b%d" % j for j in (0, 5, 15, 16, 17, 23)]
+    cases.append(Case("writes-burst-while-frozen", bu, True, "boundary"))
     # directed (both tiers): the leader is killed and followers are written to before a new leader exists (those writes
     # are refused or time out); after the election the survivors must agree, also on the keys of the refused writes
     d2 = ["up 3", "pub 1 k0 v0", "pub 2 k1 w0", "settle 1500", "kill 1", "pub 2 k0 v1", "pub 3 k1 w1", "pub 2 k2 x1",
